@@ -7,17 +7,7 @@ from . import common as C
 
 TECHNIQUE = "static analysis: objective/report provenance agreement in get_critical_path (every reported per-line term is an edge weight of the graph handed to the longest-path routine and vice versa), accumulate-vs-overwrite check for stores keyed through the non-injective int(node id) map, terminal-latency coverage of every kernel line, weight-key agreement, total agreement between text and dict"
 EXPLANATION = (
-    "R1: dag_longest_path is given the attribute name every add_edge writes (a wrong key silently weighs every "
-    "edge 1). R2: fractional load-node ids (line + 0.1) are produced in one place and every consumer that maps a "
-    "node id to a kernel line goes through int(). R3: what is printed (the sum of latency_cp over the returned "
-    "lines) is what is maximised: (a) every term stored into latency_cp is the `latency` attribute of an edge "
-    "(s, d) of consecutive nodes of the path in the graph that was searched; (b) stores into latency_cp keyed "
-    "through int(s) accumulate after a reset to 0 (a load node and its instruction map to the same line); (c) the "
-    "last instruction's latency is part of the maximised weight: every kernel line has an edge to the virtual "
-    "sink, added unconditionally on every iteration over the kernel, whose weight is its latency (latency_wo_load when "
-    "its load stage is a separate node), so the path is "
-    "never shorter than any single instruction. R4: CriticalPath in the dict and the CP figure of the text are "
-    "the same expression over get_critical_path(). R5: the returned lines are exactly the kernel lines on the path."
+    "R1: dag_longest_path is given the attribute name every add_edge writes (a wrong key silently weighs every edge 1). R2: fractional load-node ids (line + 0.1) are produced in one place and every consumer that maps a node id to a kernel line goes through int(). R3: what is printed (the sum of latency_cp over the returned lines) is what is maximised: (a) every term stored into latency_cp is the `latency` attribute of an edge (s, d) of consecutive nodes of the path in the graph that was searched; (b) stores into latency_cp keyed through int(s) accumulate, and because the accumulated state lives on the instruction forms across calls a reset to 0 must exist and precede the accumulation (a load node and its instruction map to the same line); (c) the last instruction's latency is part of the maximised weight: every kernel line has an edge to the virtual sink, added unconditionally on every iteration over the kernel, whose weight is its latency (latency_wo_load when its load stage is a separate node), so the path is never shorter than any single instruction. R4: CriticalPath in the dict and the CP figure of the text are the same expression over get_critical_path(). R5: the returned lines are exactly the kernel lines on the path."
 )
 NOT_DECIDED = "Equality with an independent longest-path computation on generated graphs (behavioural)."
 ASSUMPTIONS = ["networkx dag_longest_path maximises the sum of the given edge attribute", "the dependency graph is a DAG (checked by the code itself)"]
@@ -116,7 +106,14 @@ def run(ctx):
     # (a) terms of latency_cp
     stores = [n for n in ast.walk(f.node) if isinstance(n, (ast.Assign, ast.AugAssign)) and any(
         isinstance(t, ast.Attribute) and t.attr == "latency_cp" for t in (n.targets if isinstance(n, ast.Assign) else [n.target]))]
-    ctx.floor("R3", "stores into latency_cp", len(stores), 2)
+    ctx.floor("R3", "stores into latency_cp", len(stores), 1)
+    accs = [n for n in stores if isinstance(n, ast.AugAssign)]
+    resets = [n for n in stores if isinstance(n, ast.Assign) and C.const_num(n.value) == 0]
+    if accs:
+        ctx.check(bool(resets), "R3", "latency_cp is reset before it is accumulated", f.where(accs[0]),
+                  "`%s` accumulates into state that lives on the instruction forms, and %s never resets it: every further call "
+                  "(the report calls it more than once per analysis) adds the path's weights again, so the per-line CP values no "
+                  "longer add up to the reported total" % (U(accs[0]), f.qname), f.qname, "reset")
     pair_loops = [l for l in ast.walk(f.node) if isinstance(l, ast.For) and C.is_call_to(l.iter, "pairwise") and U(l.iter.args[0]) == path]
     ctx.check(len(pair_loops) == 1, "R3", "per-line values are assigned along consecutive nodes of the whole path", f.where(),
               "no loop over pairwise(%s): %s" % (path, [U(l.iter) for l in ast.walk(f.node) if isinstance(l, ast.For)]), f.qname, "pairwise loop")
@@ -167,7 +164,7 @@ def run(ctx):
         ok = isinstance(a, ast.Call) and isinstance(a.func, ast.Name) and a.func.id == "int"
         ctx.check(ok, "R2", "node id is normalised with int(): %s" % U(c), f.where(c),
                   "a node id (possibly line + 0.1) is used as a line number without int(): %s" % U(c), f.qname, U(c))
-    ctx.floor("R2", "node-id look-ups in get_critical_path", len(lookups), 2)
+    ctx.floor("R2", "node-id look-ups in get_critical_path", len(lookups), 1)
     # ------------------------------------------------------------------ R5 returned lines
     ctx.rule("R5", "returned lines = kernel lines on the path")
     rets = [r for r in ast.walk(f.node) if isinstance(r, ast.Return) and r.value is not None]
